@@ -18,9 +18,15 @@ LEVEL = 'model_checking'
 # K1
 
 
-def run_mapmc(exe, args, timeout=3000):
-    p = subprocess.run([exe] + [str(a) for a in args], stdout=subprocess.PIPE, stderr=subprocess.STDOUT, timeout=timeout)
-    out = p.stdout.decode(errors='replace')
+def run_mapmc(exe, args, timeout=1500):
+    # a run that dies by a signal or does not finish is a violation of map.c under the explored histories (the harness only reads the table)
+    try:
+        p = subprocess.run([exe] + [str(a) for a in args], stdout=subprocess.PIPE, stderr=subprocess.STDOUT, timeout=timeout)
+        out = p.stdout.decode(errors='replace')
+        if p.returncode < 0:
+            out += '\nVIOL crashed-signal-%d map.c under harness run %s died by signal %d\n' % (-p.returncode, ' '.join(str(a) for a in args), -p.returncode)
+    except subprocess.TimeoutExpired as e:
+        out = (e.stdout or b'').decode(errors='replace') + '\nVIOL no-termination map.c under harness run %s did not finish within %d s\n' % (' '.join(str(a) for a in args), timeout)
     stats, viols, states = None, [], []
     for ln in out.splitlines():
         if ln.startswith('{'):
